@@ -3,7 +3,7 @@
    per-event theorems of C16 (headers, control events), C15 (table maps), C09 (rows events, images) and the
    cell lemmas (through rows_roundtrip_tm / image_consumed and cell_ok_all). *)
 From Coq Require Import String.
-From GB Require Import Base.Prelude Base.BytesLemmas Model.Header Model.Events Model.Cell Model.Rbr Model.Streamer.
+From GB Require Import Base.Prelude Base.BytesLemmas Model.Header Model.Events Model.Cell Model.Json Model.Rbr Model.Streamer.
 From GB Require Import Spec.EncHeader Spec.Values Spec.EncEvent Spec.Expect Spec.EventSpec Spec.Units Spec.Binlog.
 From GB Require Import Proofs.EventProofs Proofs.EventFrame Proofs.TableMapProofs Proofs.ImageProofs Proofs.RowsProofs
                        Proofs.RowsAll Proofs.CellAll Proofs.StreamProofs Proofs.StreamProofs2.
@@ -54,6 +54,7 @@ Ltac eqb_closed :=
 Section Decode.
 Variable ffmt : Z -> Z -> bytes.
 Variable tz : Z -> Z.
+Variable efmt : Z -> bytes.
 Variable jsonp : bytes -> res bytes.
 Variable mp : mapper.
 Notation decode := (decode ffmt tz jsonp mp).
@@ -354,17 +355,12 @@ Proof.
     + f_equal. exact C.
 Qed.
 
-(* every column type with valid parameters has its cell lemma: cell_ok_all for the non-JSON types; a JSON column
-   has no value in Spec.Values (wf_value is false for it), so its cells are NULL or absent and the lemma is
-   vacuous (JSON values are C14) *)
+(* every column type with valid parameters has its cell lemma (cell_ok_all); for JSON columns the printer is the
+   model of printJSONData with the specification's 'E' formatting oracle (C14) *)
 Lemma wf_cols_family cols :
-  (forall v, -86400 <= tz v <= 86400) -> Forall (fun p => wf_type (fst p) = true) cols -> family_cols ffmt tz jsonp cols.
-Proof.
-  intros Htz H. unfold family_cols. eapply Forall_impl; [|exact H]. intros p W. cbn beta in W. split; [exact W|].
-  intros uns v Ht Hv. destruct (not_json (fst p)) eqn:N.
-  - apply cell_ok_all; assumption.
-  - destruct (fst p); try discriminate N. destruct v; discriminate Hv.
-Qed.
+  (forall v, -86400 <= tz v <= 86400) -> jsonp = print_json efmt ->
+  Forall (fun p => wf_type (fst p) = true) cols -> family_cols ffmt tz efmt jsonp cols.
+Proof. intros Htz Hj H. apply wf_cols_family_gen; [exact Htz|exact H|right; exact Hj]. Qed.
 
 Section Specs.
 Variables (t : table_def) (ti : tinfo).
@@ -401,7 +397,7 @@ Variables pc pn : Z.     (* padding patterns of the presence bitmaps and of the 
 Variables (tm : table_map) (ti : tinfo) (specs : list colspec).
 Let cols := specs_cols specs.
 Let tys := map cs_type specs.
-Hypothesis Hfam : family_cols ffmt tz jsonp cols.
+Hypothesis Hfam : family_cols ffmt tz efmt jsonp cols.
 Hypothesis Htypes : tm_types tm = map (fun s => code_of (cs_type s)) specs.
 Hypothesis Hmeta : tm_meta tm = map (fun s => meta_of (cs_type s)) specs.
 Hypothesis Hti : ti_cols ti = map (fun s => (cs_name s, cs_uns s)) specs.
@@ -414,7 +410,7 @@ Definition img_ok (pres : list bool) (o : option (list cellv)) : Prop :=
 Definition pair_ok (p : rpair) : Prop := (wi = true -> img_ok ipres (fst p)) /\ (wv = true -> img_ok dpres (snd p)).
 
 Definition side_cols (o : option (list cellv)) : rowdata :=
-  match o with Some img => expect_columns ffmt tz specs img | None => [] end.
+  match o with Some img => expect_columns ffmt tz efmt specs img | None => [] end.
 
 Lemma image_side pres bm o :
   img_ok pres o -> bm = expect_bitmap pc pres ->
@@ -501,6 +497,7 @@ Proof.
 Qed.
 
 Hypothesis tz_bounded : forall v, -86400 <= tz v <= 86400.
+Hypothesis jsonp_model : jsonp = print_json efmt.      (* needed for JSON values only (wf_cols_family) *)
 
 Lemma rows_type_in c0 kind : kind = 0 \/ kind = 1 \/ kind = 2 ->
   In (rows_type c0 kind) [23; 24; 25; 30; 31; 32] /\ rows_kind (rows_type c0 kind) = Some (4 + kind).
@@ -514,12 +511,12 @@ Lemma rows_images_wire pt t ti hr r :
   let rs := expect_rows c (map cs_type (specs_of t ti)) r in
   rows_images ffmt tz jsonp (expect_table_map pt t) ti rs
               (negb (4 + rd_kind r =? K_StatementInsert)) (negb (4 + rd_kind r =? K_StatementDelete)) (rs_rows rs) [] []
-  = Ok (Some (se_ids (rows_sevent ffmt tz mp t hr r), se_values (rows_sevent ffmt tz mp t hr r))).
+  = Ok (Some (se_ids (rows_sevent ffmt tz efmt mp t hr r), se_values (rows_sevent ffmt tz efmt mp t hr r))).
 Proof.
   intros Hnj Hl (Hk & Hfl & Hex & Hn & Hb & Ha) Hti rs.
   set (specs := specs_of t ti) in *. set (cols := specs_cols specs) in *.
   assert (Lc : length (map cs_type specs) = length cols) by (unfold cols, specs_cols; rewrite !map_length; reflexivity).
-  pose proof (wf_cols_family _ tz_bounded (specs_wf_types t ti Hl Hnj)) as Hnj'. fold specs in Hnj'. fold cols in Hnj'.
+  pose proof (wf_cols_family _ tz_bounded jsonp_model (specs_wf_types t ti Hl Hnj)) as Hnj'. fold specs in Hnj'. fold cols in Hnj'.
   pose proof (specs_tm_types t ti Hl pt) as Ht. pose proof (specs_tm_meta t ti Hl pt) as Hm. fold specs in Ht, Hm.
   pose proof (eq_sym (specs_names t ti Hl)) as Hn'. fold specs in Hn'.
   subst rs. unfold rows_sevent. rewrite Hti. fold specs. cbn [se_ids se_values expect_rows rs_rows rs_ident_cols rs_data_cols].
@@ -558,7 +555,7 @@ Lemma decode_wrows h pt t ti r crc :
   wf_rows_def (specs_cols (specs_of t ti)) r ->
   lookup_table (td_id t) tables = Some (expect_table_map pt t, ti) ->
   decode f tables (wire c (WRows h (map fst (td_cols t)) r crc)) =
-    AStmt (rows_sevent ffmt tz mp t h r) (w_next h) (w_ts h).
+    AStmt (rows_sevent ffmt tz efmt mp t h r) (w_next h) (w_ts h).
 Proof.
   intros Wh Hf Wt Hl Hti Hid Wr Hlk. unfold fits in Hf.
   pose proof Wt as (_ & _ & _ & _ & _ & _ & Hnj).
@@ -569,8 +566,8 @@ Proof.
   destruct (rows_type_in c (rd_kind r) Hk) as (Hin & Hrk).
   cbn [wire wtype whead wbody wcrc] in *. rewrite <- E in *.
   destruct (ev_facts c v _ _ _ Wc (wf_hdr_of (rows_type c (rd_kind r)) h ltac:(lia) Wh) Hf) as (V & T0 & S & T & N & Ts).
-  pose proof (rows_roundtrip_tm ffmt tz jsonp c v (hdr_of (rows_type c (rd_kind r)) h) _ pt t r crc Wc
-                (wf_cols_family _ tz_bounded (specs_wf_types t ti Hl Hnj)) Wr (eq_sym E) eq_refl) as R1.
+  pose proof (rows_roundtrip_tm ffmt tz efmt jsonp c v (hdr_of (rows_type c (rd_kind r)) h) _ pt t r crc Wc
+                (wf_cols_family _ tz_bounded jsonp_model (specs_wf_types t ti Hl Hnj)) Wr (eq_sym E) eq_refl) as R1.
   rewrite S in R1. cbn [bind] in R1.
   destruct Wt as (Hidr & _).
   pose proof (rows_table_id c v (hdr_of (rows_type c (rd_kind r)) h) (map fst (specs_cols (specs_of t ti))) r crc Wc Hk
